@@ -5,7 +5,7 @@ import e2e_common as E
 
 
 def run(ctx):
-    traces = ctx.e2e(E.plan(ctx, [("lossy", 8), ("migrate", 4), ("handshake", 6), ("attack", 4), ("tiny", 4), ("reset", 3), ("clean", 2)]))
+    traces = ctx.e2e(E.plan(ctx, [("lossy", 8), ("migrate", 4), ("handshake", 6), ("attack", 4), ("tiny", 4), ("reset", 3), ("clean", 2), ("ack_unsent", 4), ("late_retry", 3)]))
     # ... plus every placement of one (thorough: two) fault(s) on the first datagrams of either direction, enumerated by TLC
     traces.update(ctx.e2e_sched(8, 1 if ctx.quick else 2))
     # one instance of the Recovery specification per endpoint: every loss declaration, every acknowledged range,
